@@ -34,6 +34,12 @@ type StopCase struct {
 	GateCall int  // 1-based handler call that is gated (HandlerGated)
 	PrevOK   bool // a complete successful attempt (and one Error() call) precedes the scenario on the same streamer
 	SlowN    int  // HandlerSlow: yields per call
+	// PrevCancel: the preceding attempt (if PrevOK) was ended by caller cancellation instead of the master's EOF
+	PrevCancel bool `json:",omitempty"`
+	// schedule perturbation at the library's log calls (through the exported SetLogger)
+	PerturbWho    int `json:",omitempty"` // 0 none, 1 reader goroutine, 2 Stream goroutine, 3 both
+	PerturbMicros int `json:",omitempty"`
+	PerturbLevel  int `json:",omitempty"` // 1 error logs, 2 + info, 3 + debug
 }
 
 // StopObs is everything observed.
@@ -57,6 +63,7 @@ type StopObs struct {
 	LateCalls       int32
 	DumpSeen        bool
 	CauseFired      bool // the stop cause demonstrably reached the library
+	Panicked        string
 }
 
 const stopBound = 3 * time.Second
@@ -134,7 +141,21 @@ func runStop(c *StopCase) *StopObs {
 	}
 	defer ss.close()
 	if c.PrevOK && c.Fault.Kind != "cancel_dial" {
-		st0 := ss.run(attempt{l: l})
+		var st0 *attemptState
+		if c.PrevCancel {
+			pctx, pcancel := context.WithCancel(context.Background())
+			n := 0
+			st0 = ss.run(attempt{l: l, ctx: pctx, fallbackCancel: pcancel, handler: func(tx *gobinlog.Transaction, st *attemptState) error {
+				n++
+				if n == 1 {
+					pcancel()
+				}
+				return nil
+			}})
+			pcancel()
+		} else {
+			st0 = ss.run(attempt{l: l})
+		}
 		st0.drainLib()
 		done := make(chan struct{})
 		go func() { ss.s.Error(); close(done) }()
@@ -261,6 +282,10 @@ func runStop(c *StopCase) *StopObs {
 			obs.StateReached = seen == want
 			if f.Kind == "cancel_gate" {
 				doCancel()
+				// stay inside the handler a little longer: Stream must not return while its handler call is still running
+				for d := time.Now().Add(30 * time.Millisecond); time.Now().Before(d) && atomic.LoadInt32(&st.returned) == 0; {
+					time.Sleep(200 * time.Microsecond)
+				}
 			}
 			atomic.StoreInt32(&handlerBlocked, 0)
 		}
@@ -292,6 +317,10 @@ func runStop(c *StopCase) *StopObs {
 			doCancel()
 		}()
 	}
+	if c.PerturbWho != 0 {
+		disarm := armPerturb(c.PerturbWho, c.PerturbMicros, c.PerturbLevel)
+		defer disarm()
+	}
 	at.fallback = stopBound
 	at.fallbackCancel = cancel
 	at.onStall = func(st *attemptState) {
@@ -302,10 +331,38 @@ func runStop(c *StopCase) *StopObs {
 			obs.Inconclusive = "Stream had not returned after the bound but is not provably blocked (" + state + ")"
 		}
 	}
+	callError := func(st *attemptState) {
+		// Error() must return, three times in a row
+		for i := 0; i < 3 && obs.ErrorBlocked == ""; i++ {
+			done := make(chan error, 1)
+			var gid int64
+			var wg sync.WaitGroup
+			wg.Add(1)
+			go func() {
+				atomic.StoreInt64(&gid, int64(sched.Self()))
+				wg.Done()
+				done <- ss.s.Error()
+			}()
+			wg.Wait()
+			select {
+			case e := <-done:
+				obs.ErrorResults = append(obs.ErrorResults, e)
+			case <-time.After(stopBound):
+				state, proven := blockedProof(int(atomic.LoadInt64(&gid)), st.baseline)
+				if proven {
+					obs.ErrorBlocked = fmt.Sprintf("Error() call %d does not return: %s", i+1, state)
+				} else if obs.Inconclusive == "" {
+					obs.Inconclusive = "Error() had not returned after the bound but is not provably blocked (" + state + ")"
+				}
+			}
+		}
+	}
 	var callsAtReturn int32
 	at.afterReturn = func(st *attemptState) {
 		callsAtReturn = atomic.LoadInt32(&st.calls)
 		obs.CallerCancelled = atomic.LoadInt32(&cancelled) == 1
+		// the first Error() call comes IMMEDIATELY after Stream returned, as a caller would do it
+		callError(st)
 		// the connection must be closed by the library within the bound (when the master did not close it first)
 		if _, seen := st.dump(); seen || f.Kind == "err_query" {
 			select {
@@ -320,6 +377,7 @@ func runStop(c *StopCase) *StopObs {
 	}
 	st := ss.run(at)
 	_, obs.DumpSeen = st.dump()
+	obs.Panicked = st.panicked
 	obs.StreamReturned = !st.fellBack
 	obs.StreamErr = st.streamErr
 	obs.Delivered = len(st.got)
@@ -368,30 +426,6 @@ func runStop(c *StopCase) *StopObs {
 		}
 	}
 
-	// Error() must return, three times in a row
-	for i := 0; i < 3 && obs.ErrorBlocked == ""; i++ {
-		done := make(chan error, 1)
-		var gid int64
-		var wg sync.WaitGroup
-		wg.Add(1)
-		go func() {
-			atomic.StoreInt64(&gid, int64(sched.Self()))
-			wg.Done()
-			done <- ss.s.Error()
-		}()
-		wg.Wait()
-		select {
-		case e := <-done:
-			obs.ErrorResults = append(obs.ErrorResults, e)
-		case <-time.After(stopBound):
-			state, proven := blockedProof(int(atomic.LoadInt64(&gid)), st.baseline)
-			if proven {
-				obs.ErrorBlocked = fmt.Sprintf("Error() call %d does not return: %s", i+1, state)
-			} else if obs.Inconclusive == "" {
-				obs.Inconclusive = "Error() had not returned after the bound but is not provably blocked (" + state + ")"
-			}
-		}
-	}
 	obs.AfterReturn = atomic.LoadInt32(&st.afterRet)
 	obs.LateCalls = atomic.LoadInt32(&st.calls) - callsAtReturn
 	if st.fellBack {
